@@ -157,6 +157,19 @@ fn oracle_views(ctx: &mut Ctx, class: &str, kernel: &Kernel<f64>, mat: &[Vec<f64
         }
     }
     ctx.require(ut.len() == want.len() && ut.iter().zip(&want).all(|(a, b)| neq(*a, *b)), "view_upper_triangle", class, || format!("upper triangle {:?} want {:?}", ut, want));
+    // the borrowed kernel (`KernelView`, separate `Inner` impls) reports the same
+    let kv = kernel.view();
+    let same = |a: &[f64], b: &[f64]| a.len() == b.len() && a.iter().zip(b).all(|(x, y)| beq(*x, *y));
+    ctx.require(kv.size() == kernel.size(), "view_type_agrees", class, || "size of the borrowed kernel differs".to_string());
+    ctx.require(same(&kv.sum().to_vec(), &sum), "view_type_agrees", class, || format!("sum of the borrowed kernel {:?} vs {:?}", kv.sum(), sum));
+    ctx.require(same(&kv.diagonal().to_vec(), &diag), "view_type_agrees", class, || format!("diagonal of the borrowed kernel {:?} vs {:?}", kv.diagonal(), diag));
+    ctx.require(same(&kv.to_upper_triangle(), &ut), "view_type_agrees", class, || "upper triangle of the borrowed kernel differs".to_string());
+    for (i, c) in ci.iter().zip(cols) {
+        if let Some(c) = c {
+            let vc = catch_unwind(AssertUnwindSafe(|| kv.column(*i))).ok();
+            ctx.require(vc.as_ref().map(|v| same(v, c)).unwrap_or(false), "view_type_agrees", class, || format!("column {} of the borrowed kernel {:?} vs {:?}", i, vc, c));
+        }
+    }
     for (i, c) in ci.iter().zip(cols) {
         if *i < n {
             match c {
@@ -262,6 +275,8 @@ fn op_ddot(em: &mut Em, x: &Array2<f64>, km: Km, r: &Array2<f64>) {
         };
         let got = kernel.dot(&r.view());
         oracle_dot(ctx, &class, &got, &k, &rr, q);
+        let gv = kernel.view().dot(&r.view());
+        ctx.require(gv.dim() == got.dim() && gv.iter().zip(got.iter()).all(|(a, b)| beq(*a, *b)), "view_type_agrees", &class, || "dot of the borrowed kernel differs".to_string());
         format!("ok {}", list2(rows_of(&got).iter().map(|r| r.iter()), |v| fl(false, *v)))
     });
 }
@@ -367,6 +382,8 @@ fn op_sparse(em: &mut Em, x: &Array2<f64>, km: Km, k: usize, which: usize, ci: &
         if let Some(r) = dot_rhs {
             let got = kernel.dot(&r.view());
             oracle_dot(ctx, &class, &got, &mat, &rows_of(r), r.ncols());
+            let gv = kernel.view().dot(&r.view());
+            ctx.require(gv.dim() == got.dim() && gv.iter().zip(got.iter()).all(|(a, b)| beq(*a, *b)), "view_type_agrees", &class, || "dot of the borrowed kernel differs".to_string());
             return format!("ok {}", list2(rows_of(&got).iter().map(|r| r.iter()), |v| fl(false, *v)));
         }
         // contract of the external index (C07): k+1 distinct in-range indices that are nearest
